@@ -220,9 +220,9 @@ PROPS = {
         "streams": [sched_stream(nontrivial=["nested-acquisition"]), static_stream()],
         "monitors": ["C17"],
         "rule": "scheduled runs of real threads; a run is non-trivial when some thread acquired a lock while holding another (nesting is what can deadlock); distinct by (schedule, event trace)",
-        "level_text": "Lean theorems: for any number of threads running operations whose lock skeletons are rank-disciplined (every nested acquisition strictly increases the rank registry < queue mutex < store lock), in every reachable state with an unfinished thread some thread is enabled (also under writer preference and any work-conserving granting policy), every maximal run finishes all threads, and EVERY operation of cachelito (46-entry skeleton table, any universe of caches) is rank-disciplined; the pre-fix conditional-invalidation callback is not, with a kernel-checked deadlocked state. Tied to the code by recording every real lock acquisition/release (hook H1) under a deterministic scheduler: each operation's real trace must be a path of its skeleton and rank-ordered; no explored schedule deadlocks.",
+        "level_text": "Lean theorems: for any number of threads running operations whose lock skeletons are rank-disciplined (every nested acquisition strictly increases the rank registry < queue mutex < store lock), in every reachable state with an unfinished thread some thread is enabled (also under writer preference and any work-conserving granting policy), every maximal run finishes all threads, and EVERY operation of cachelito (46-entry skeleton table, any universe of caches) is rank-disciplined; the pre-fix conditional-invalidation callback is not, with a kernel-checked deadlocked state. Tied to the code by recording every real lock acquisition/release (hook H1) under a deterministic scheduler: each operation's real trace must be a path of its skeleton and rank-ordered; no explored schedule deadlocks. Translator tie: the lock nesting of the current source (lexical guard scopes, calls, registry callbacks) is extracted on every run (Generated/LockNesting.lean); C17s proves that every nesting strictly increases the rank, is a nesting of THE TABLE, and that any skeleton with only such nestings is rank-disciplined.",
         "level_note": MODEL_NOTE + " parking_lot fairness beyond writer preference, DashMap shard locks (never held at a yield point) and `Once` cells are modelled, not observed; user predicates that call back into a cache are outside the property.",
-        "technique": "Lean 4 theorem (lock-rank argument over all interleavings) + real lock traces checked against the model's skeletons + deterministic schedule exploration of real threads",
+        "technique": "Lean 4 theorem (lock-rank argument over all interleavings) + source-to-model translator (lock nesting regenerated from the code and re-proved on every run) + real lock traces checked against the model's skeletons + deterministic schedule exploration of real threads",
         "design_ref": "DESIGN.md §7 C17", "assumptions": ["user callbacks do not re-enter the cache or the registries"],
     },
     "C20": {
@@ -263,9 +263,9 @@ PROPS = {
                                 what="L1 over the full product flavour x policy x limit x ttl x max_memory x fw; every operation under catch_unwind, debug assertions and overflow checks on")],
         "monitors": ["C16"],
         "rule": "every operation of every generated episode runs under catch_unwind with overflow checks on; non-trivial = a step that evicts, purges or takes the oversize path (the paths that used to panic)",
-        "level_text": "Lean theorems for each panic-capable primitive: random index always in range and guarded on the empty queue, scan positions below the queue length, every eviction on a non-empty consistent cache finds a victim, the thread-local RefCell borrow regions of every operation/policy/branch never conflict (and the pre-fix code's did), built-in estimators never underflow, eviction loops terminate. Tied to the code by running the full configuration product under catch_unwind.",
+        "level_text": "Lean theorems for each panic-capable primitive: random index always in range and guarded on the empty queue, scan positions below the queue length, every eviction on a non-empty consistent cache finds a victim, the thread-local RefCell borrow regions of every operation/policy/branch never conflict (and the pre-fix code's did), built-in estimators never underflow, eviction loops terminate. Tied to the code by running the full configuration product under catch_unwind. Translator tie: the RefCell borrow nesting of thread_local_cache.rs is extracted from the current source on every run (Generated/BorrowNesting.lean) and C16s proves that no borrow is taken while a conflicting borrow of the same cell is alive.",
         "level_note": MODEL_NOTE + " The RefCell borrow traces are a hand transcription tied to the code only through observed panics. Not modelled: allocation failure, usize overflow of sums, panics in user code (bodies, predicates, user estimators reporting less than size_of).",
-        "technique": TECH, "design_ref": "DESIGN.md §7 C16",
+        "technique": TECH + " + source-to-model translator (nesting structure regenerated from the code and re-proved on every run)",
         "assumptions": ["limit >= 1", "user code does not panic"],
     },
 }
